@@ -72,6 +72,10 @@ type zzTxSpec struct {
 // height, time, signer = sender) valid - C06 and C05 quantify over the envelope, C07 over the money.
 func zzValidEnvelopeSpec(name string) zzTxSpec {
 	from := zzConcrete(zzInt(name+".from"), 0, 2)
+	if zzParam("fixparties", 0) == 1 {
+		// reduced bound: account 0 pays account 0 (itself), 1 or 2
+		zzAssume(from == 0)
+	}
 	return zzTxSpec{from: from, to: zzConcrete(zzInt(name+".to"), 0, 2), signer: from,
 		amount: zzN64(name + ".amount"), fee: zzN64(name + ".fee"), created: 10, time: 1, net: 1, chain: 1}
 }
@@ -171,4 +175,35 @@ func ZZ_C07_single_failed_tx_rolls_back() {
 		sm.ResetCaches()
 		zzAssert("C07.single.cache-agrees-with-store", zzBalances(sm) == cached)
 	}
+}
+
+// C07 / R1: the slash-tracker snapshot taken before a transaction (SlashTracker.Clone, restored by
+// ApplyTransactions when the transaction fails) is independent of the live tracker: slashes recorded
+// after the snapshot - for validators that already had an entry as well as for new ones - do not
+// show through it.
+//
+//zz:harness mode=int unwind=40
+//zz:reach C07.R1.done
+func ZZ_C07_R1_slash_tracker_snapshot_is_deep() {
+	tr := NewSlashTracker()
+	p0, p1 := zzN64("before0"), zzN64("before1")
+	zzAssume(p0 <= 100 && p1 <= 100)
+	if zzBool("entry0") {
+		tr.AddSlash(zzAddr(0), 1, p0)
+	}
+	if zzBool("entry0b") {
+		tr.AddSlash(zzAddr(0), 2, p1)
+	}
+	a0, a0b, a1 := tr.GetTotalSlashPercent(zzAddr(0), 1), tr.GetTotalSlashPercent(zzAddr(0), 2), tr.GetTotalSlashPercent(zzAddr(1), 1)
+	snap := tr.Clone()
+	q := zzN64("during")
+	zzAssume(q >= 1 && q <= 100)
+	tr.AddSlash(zzAddr(0), 1, q)
+	tr.AddSlash(zzAddr(0), 2, q)
+	tr.AddSlash(zzAddr(1), 1, q)
+	zzAssert("C07.R1.snapshot-keeps-existing-entry", snap.GetTotalSlashPercent(zzAddr(0), 1) == a0)
+	zzAssert("C07.R1.snapshot-keeps-other-committee-entry", snap.GetTotalSlashPercent(zzAddr(0), 2) == a0b)
+	zzAssert("C07.R1.snapshot-has-no-new-entry", snap.GetTotalSlashPercent(zzAddr(1), 1) == a1)
+	zzAssert("C07.R1.live-tracker-advanced", tr.GetTotalSlashPercent(zzAddr(0), 1) == a0+q)
+	zzReach("C07.R1.done")
 }
